@@ -62,6 +62,13 @@ struct World {
     divergence: bool,
 }
 
+/// scheduler events so far (a stall = no event for STALL_MS while the baton holder neither parks, blocks nor finishes)
+static PROGRESS: std::sync::atomic::AtomicU64 = std::sync::atomic::AtomicU64::new(0);
+/// set when the baton holder stalled: it is blocked OUTSIDE the scheduler (a real lock held by a parked thread). The rest of this
+/// execution runs free (every thread resumes, visible operations no longer park) and the execution is flagged `uncontrolled`.
+static FREERUN: std::sync::atomic::AtomicBool = std::sync::atomic::AtomicBool::new(false);
+static STALL_MS: std::sync::atomic::AtomicU64 = std::sync::atomic::AtomicU64::new(2000);
+pub static UNCONTROLLED: std::sync::atomic::AtomicU64 = std::sync::atomic::AtomicU64::new(0);
 static W: Mutex<Option<World>> = Mutex::new(None);
 static CV: Condvar = Condvar::new();
 static OS_LIVE: AtomicUsize = AtomicUsize::new(0);
@@ -113,6 +120,13 @@ fn enabled_unparked(w: &mut World) -> Option<usize> {
 
 /// Called by the baton holder when it parks, blocks or finishes: choose who runs next.
 fn reschedule(w: &mut World) {
+    PROGRESS.fetch_add(1, SeqCst);
+    if FREERUN.load(SeqCst) {
+        if w.threads[0].st == St::Finished {
+            w.done = true;
+        }
+        return;
+    }
     if let Some(i) = enabled_unparked(w) {
         w.current = i;
         return;
@@ -179,8 +193,13 @@ fn reschedule(w: &mut World) {
 }
 
 fn wait_turn(me: usize, mut g: std::sync::MutexGuard<'static, Option<World>>) {
+    let mut last = PROGRESS.load(SeqCst);
+    let mut stalled = 0u64;
     loop {
         {
+            if FREERUN.load(SeqCst) {
+                return;
+            }
             let w = g.as_mut().expect("scheduler world missing");
             if w.deadlock {
                 drop(g);
@@ -190,7 +209,26 @@ fn wait_turn(me: usize, mut g: std::sync::MutexGuard<'static, Option<World>>) {
                 return;
             }
         }
-        g = CV.wait(g).unwrap_or_else(|e| e.into_inner());
+        let (g2, to) = CV.wait_timeout(g, std::time::Duration::from_millis(25)).unwrap_or_else(|e| e.into_inner());
+        g = g2;
+        if to.timed_out() {
+            let p = PROGRESS.load(SeqCst);
+            if p == last {
+                stalled += 25;
+            } else {
+                last = p;
+                stalled = 0;
+            }
+            if stalled >= STALL_MS.load(SeqCst) {
+                // the baton holder is blocked outside the scheduler: give up control of this execution, never hang
+                if !FREERUN.swap(true, SeqCst) {
+                    UNCONTROLLED.fetch_add(1, SeqCst);
+                    STALL_MS.store(100, SeqCst);
+                }
+                CV.notify_all();
+                return;
+            }
+        }
     }
 }
 
@@ -244,7 +282,7 @@ pub fn block_join(target: usize) {
     let mut g = lock();
     {
         let w = g.as_mut().unwrap();
-        if w.threads[target].st == St::Finished {
+        if w.threads[target].st == St::Finished || FREERUN.load(SeqCst) {
             return;
         }
         w.threads[me].st = St::BlockedJoin(target);
@@ -266,6 +304,9 @@ pub fn visible(site: &str) {
             Some(w) => w,
             None => return,
         };
+        if FREERUN.load(SeqCst) {
+            return;
+        }
         w.threads[me].st = St::Parked;
         w.threads[me].site = site.to_string();
         reschedule(w);
@@ -285,7 +326,7 @@ pub fn barrier(id: u32, needed: usize) {
         let w = g.as_mut().unwrap();
         let e = w.barriers.entry(id).or_insert((needed, 0));
         e.1 += 1;
-        if e.1 >= e.0 {
+        if e.1 >= e.0 || FREERUN.load(SeqCst) {
             return;
         }
         w.threads[me].st = St::BlockedBarrier(id);
@@ -316,6 +357,8 @@ pub struct Exec {
     pub thread_parents: Vec<usize>,
     pub thread_panicked: Vec<bool>,
     pub divergence: bool,
+    /// the baton holder stalled outside the scheduler (a real lock held by a parked thread): the rest of the execution ran free
+    pub uncontrolled: bool,
 }
 
 fn hook(site: &str) {
@@ -330,6 +373,7 @@ pub fn run_one(f: fn() -> String, caller: Option<&str>, script: &[usize]) -> Exe
     }
     vrt::take_log();
     vrt::tok_reset();
+    FREERUN.store(false, SeqCst);
     {
         let mut g = lock();
         *g = Some(World {
@@ -398,6 +442,7 @@ pub fn run_one(f: fn() -> String, caller: Option<&str>, script: &[usize]) -> Exe
         thread_parents: w.threads.iter().map(|t| t.parent).collect(),
         thread_panicked: w.threads.iter().map(|t| t.panicked).collect(),
         divergence: w.divergence,
+        uncontrolled: FREERUN.load(SeqCst),
     }
 }
 
